@@ -3,6 +3,7 @@ package main
 // C16: stop groups, frontend life-cycles and reload against the real code.
 
 import (
+	"bytes"
 	"github.com/alicebob/miniredis"
 	redisstore "github.com/chihaya/chihaya/storage/redis"
 	"context"
@@ -675,6 +676,15 @@ func runC16(c *Ctx) {
 		lifeBinary(c, sc)
 	}
 	cleanupBinary()
+	for i := 0; i < 2; i++ {
+		lifeHandlerGate(c, "udp")
+		lifeHandlerGate(c, "http")
+	}
+	if c.Tier == "thorough" {
+		lifeMetricsInflight(c, 35)
+	} else {
+		lifeMetricsInflight(c, 6)
+	}
 	for i := 0; i < 8; i++ {
 		lifeMetrics(c, i%4 != 0)
 		lifeMetrics(c, true)
@@ -851,6 +861,189 @@ func lifeMetricsRace(c *Ctx, n int) {
 		}
 		wg.Wait()
 		return fmt.Sprintf("free_at_stop=%d/%d stop_pending=%d goroutines_left=%d", free, n, pending, goroutinesLeft("chihaya/pkg/metrics.", g0))
+	}()
+	c.Emit(op, obs)
+}
+
+// handlerGate parks HandleAnnounce itself (not the post-response hook) until the gate opens
+type handlerGate struct {
+	inner     frontend.TrackerLogic
+	gate      chan struct{}
+	entered   int32
+	afterDone int32
+}
+
+func (g *handlerGate) HandleAnnounce(ctx context.Context, req *bittorrent.AnnounceRequest) (context.Context, *bittorrent.AnnounceResponse, error) {
+	atomic.StoreInt32(&g.entered, 1)
+	<-g.gate
+	return g.inner.HandleAnnounce(ctx, req)
+}
+func (g *handlerGate) AfterAnnounce(ctx context.Context, req *bittorrent.AnnounceRequest, resp *bittorrent.AnnounceResponse) {
+	g.inner.AfterAnnounce(ctx, req, resp)
+	atomic.StoreInt32(&g.afterDone, 1)
+}
+func (g *handlerGate) HandleScrape(ctx context.Context, req *bittorrent.ScrapeRequest) (context.Context, *bittorrent.ScrapeResponse, error) {
+	return g.inner.HandleScrape(ctx, req)
+}
+func (g *handlerGate) AfterScrape(ctx context.Context, req *bittorrent.ScrapeRequest, resp *bittorrent.ScrapeResponse) {
+	g.inner.AfterScrape(ctx, req, resp)
+}
+
+// life.handler_gate: Stop is called while an accepted announce is still inside the tracker logic. Stop must stay
+// pending; when the logic lets the request go on, the client gets its answer, the post-response hook runs, and only
+// then Stop completes — with nothing of the frontend left running.
+func lifeHandlerGate(c *Ctx, proto string) {
+	op := "life.handler_gate proto=" + proto
+	c.Begin(op)
+	obs := func() (o string) {
+		defer func() {
+			if p := recover(); p != nil {
+				o = "PANIC " + strings.Fields(fmt.Sprint(p))[0]
+			}
+		}()
+		pkg := "chihaya/frontend/" + proto + "."
+		g0 := goroutinesOf(pkg)
+		ps, lg := newStoreLogic()
+		defer func() { <-ps.Stop() }()
+		hg := &handlerGate{inner: lg, gate: make(chan struct{})}
+		answered := make(chan bool, 1)
+		var stopper interface{ Stop() stop.Result }
+		if proto == "udp" {
+			pc, err := net.ListenUDP("udp", &net.UDPAddr{IP: net.IPv4(127, 0, 0, 1)})
+			if err != nil {
+				return "no-port"
+			}
+			port := pc.LocalAddr().(*net.UDPAddr).Port
+			pc.Close()
+			fe, err := udpfe.NewFrontend(hg, udpfe.Config{Addr: fmt.Sprintf("127.0.0.1:%d", port), PrivateKey: udpKey, MaxClockSkew: 10 * time.Second})
+			if err != nil {
+				return "new-failed"
+			}
+			stopper = fe
+			cl, _ := net.DialUDP("udp", nil, &net.UDPAddr{IP: net.IPv4(127, 0, 0, 1), Port: port})
+			defer cl.Close()
+			buf := make([]byte, 2048)
+			connected := false
+			for i := 0; i < 100 && !connected; i++ {
+				_, _ = cl.Write(append([]byte{0, 0, 0x04, 0x17, 0x27, 0x10, 0x19, 0x80, 0, 0, 0, 0}, 9, 9, 9, 9))
+				_ = cl.SetReadDeadline(time.Now().Add(20 * time.Millisecond))
+				if n, err := cl.Read(buf); err == nil && n == 16 {
+					connected = true
+				}
+			}
+			if !connected {
+				return "never-connected"
+			}
+			_, _ = cl.Write(udpAnnouncePacket(buf[8:16]))
+			go func() {
+				_ = cl.SetReadDeadline(time.Now().Add(8 * time.Second))
+				b := make([]byte, 2048)
+				n, err := cl.Read(b)
+				answered <- err == nil && n >= 20 && binary.BigEndian.Uint32(b[:4]) == 1
+			}()
+		} else {
+			port := freePort()
+			fe, err := httpfe.NewFrontend(hg, httpfe.Config{Addr: fmt.Sprintf("127.0.0.1:%d", port), AnnounceRoutes: []string{"/announce"}, ScrapeRoutes: []string{"/scrape"}})
+			if err != nil {
+				return "new-failed"
+			}
+			stopper = fe
+			go func() {
+				cl := &http.Client{Timeout: 8 * time.Second, Transport: &http.Transport{DisableKeepAlives: true}}
+				var resp *http.Response
+				var err error
+				for i := 0; i < 100; i++ {
+					resp, err = cl.Get(fmt.Sprintf("http://127.0.0.1:%d/announce?info_hash=aaaaaaaaaaaaaaaaaaaa&peer_id=-TR2940-bbbbbbbbbbbb&port=6881&left=5&downloaded=0&uploaded=0&compact=1", port))
+					if err == nil {
+						break
+					}
+					time.Sleep(20 * time.Millisecond)
+				}
+				if err != nil {
+					answered <- false
+					return
+				}
+				var b bytes.Buffer
+				_, _ = b.ReadFrom(resp.Body)
+				resp.Body.Close()
+				answered <- resp.StatusCode == 200 && strings.Contains(b.String(), "interval")
+			}()
+		}
+		for i := 0; i < 500 && atomic.LoadInt32(&hg.entered) == 0; i++ {
+			time.Sleep(5 * time.Millisecond)
+		}
+		entered := atomic.LoadInt32(&hg.entered) == 1
+		res := stopper.Stop()
+		early, _ := waitStop(res, 400*time.Millisecond)
+		close(hg.gate)
+		ok := false
+		select {
+		case ok = <-answered:
+		case <-time.After(9 * time.Second):
+		}
+		stopped := early
+		if !early {
+			stopped, _ = waitStop(res, 5*time.Second)
+		}
+		afterDone := atomic.LoadInt32(&hg.afterDone) == 1
+		left := goroutinesLeft(pkg, g0)
+		return fmt.Sprintf("entered=%s stop_pending_while_handler_runs=%s answered=%s stopped=%s after_done_at_stop=%s goroutines_left=%d", b01(entered), b01(!early), b01(ok), b01(stopped), b01(afterDone), left)
+	}()
+	c.Emit(op, obs)
+}
+
+// life.metrics_inflight: Stop is called while the metrics server is in the middle of a long request (a CPU profile
+// of secs seconds). Stop has to wait for it: the request ends normally, and only then Stop completes.
+func lifeMetricsInflight(c *Ctx, secs int) {
+	op := fmt.Sprintf("life.metrics_inflight secs=%d", secs)
+	c.Begin(op)
+	obs := func() (o string) {
+		defer func() {
+			if p := recover(); p != nil {
+				o = "PANIC " + strings.Fields(fmt.Sprint(p))[0]
+			}
+		}()
+		addr := fmt.Sprintf("127.0.0.1:%d", freePort())
+		srv := metrics.NewServer(addr)
+		type result struct {
+			ok   bool
+			when time.Time
+		}
+		done := make(chan result, 1)
+		go func() {
+			cl := &http.Client{Timeout: time.Duration(secs+10) * time.Second, Transport: &http.Transport{DisableKeepAlives: true}}
+			var resp *http.Response
+			var err error
+			for i := 0; i < 100; i++ {
+				resp, err = cl.Get(fmt.Sprintf("http://%s/debug/pprof/profile?seconds=%d", addr, secs))
+				if err == nil {
+					break
+				}
+				time.Sleep(20 * time.Millisecond)
+			}
+			if err != nil {
+				done <- result{false, time.Now()}
+				return
+			}
+			var b bytes.Buffer
+			_, rerr := b.ReadFrom(resp.Body)
+			resp.Body.Close()
+			done <- result{resp.StatusCode == 200 && rerr == nil && b.Len() > 0, time.Now()}
+		}()
+		running := false
+		for i := 0; i < 300 && !running; i++ {
+			time.Sleep(10 * time.Millisecond)
+			running = goroutinesOf("net/http/pprof.Profile") > 0
+		}
+		res := srv.Stop()
+		stopped, _ := waitStop(res, time.Duration(secs+8)*time.Second)
+		stopAt := time.Now()
+		var r result
+		select {
+		case r = <-done:
+		case <-time.After(time.Duration(secs+8) * time.Second):
+		}
+		return fmt.Sprintf("request_running_at_stop=%s stopped=%s request_ok=%s stop_completed_before_request=%s", b01(running), b01(stopped), b01(r.ok), b01(r.when.IsZero() || stopAt.Before(r.when.Add(-200*time.Millisecond))))
 	}()
 	c.Emit(op, obs)
 }
